@@ -40,6 +40,7 @@ class Result:
         self.instances = {}  # rule -> count (vacuity guards)
 
     def add(self, rule, key, msg, where=None, detail=None):
+        key = re.sub(r"#\d+", "", key)
         full = "%s/%s/%s" % (self.pid, rule, key)
         if any(f.key == full for f in self.findings):
             return
@@ -122,7 +123,8 @@ def load_known():
 def finish(res, env, replay_key=None):
     """print findings, write evidence + replay files, return exit code"""
     known, _fixed = load_known()
-    outdir = os.path.join(VERIF, "out", res.pid)
+    root = os.environ.get("PFZ_OUT_ROOT", VERIF)
+    outdir = os.path.join(root, "out", res.pid)
     os.makedirs(outdir, exist_ok=True)
     for fn in os.listdir(outdir):
         if fn.endswith(".json"):
@@ -161,8 +163,8 @@ def finish(res, env, replay_key=None):
         "wall_s": round(wall, 2),
         "violations": nviol,
     }
-    os.makedirs(os.path.join(VERIF, "evidence"), exist_ok=True)
-    with open(os.path.join(VERIF, "evidence", res.pid + ".json"), "w") as fh:
+    os.makedirs(os.path.join(root, "evidence"), exist_ok=True)
+    with open(os.path.join(root, "evidence", res.pid + ".json"), "w") as fh:
         json.dump(ev, fh, indent=1, default=str)
     if nviol == 0:
         print("OK property=%s tier=%s findings=0 known=%d wall=%.1fs" % (res.pid, env.tier, nknown, wall))
